@@ -27,6 +27,8 @@ package rib
 //@ pred resultsWF(rs []*OpResult) = forall i in 0..len(rs) :: rs[i] != nil
 
 //@ unit RIB.AddEntry
+//@ requires[holders] holdersNonNil(r)
+//@ ensures[holders] holdersNonNil(r)
 //@ requires r != nil && op != nil
 //@ ensures[fatal] result2 != nil ==> len(result0) == 0 && len(result1) == 0
 //@ ensures[wf] resultsWF(result0) && resultsWF(result1)
@@ -34,6 +36,8 @@ package rib
 //@ props C01 C02 C06 C12:safety
 
 //@ unit RIB.DeleteEntry
+//@ requires[holders] holdersNonNil(r)
+//@ ensures[holders] holdersNonNil(r)
 //@ requires r != nil
 //@ ensures[wf] resultsWF(result0) && resultsWF(result1)
 //@ ensures[one-verdict] result2 == nil ==> len(result0) + len(result1) == 1
@@ -50,6 +54,8 @@ package rib
 //@ props C08 C07 C11:lock
 
 //@ unit RIB.Flush
+//@ requires[holders] holdersNonNil(r)
+//@ ensures[holders] holdersNonNil(r)
 //@ requires r != nil
 //@ requires[known] forall i in 0..len(networkInstances) :: networkInstances[i] in dom(r.niRIB)
 //@ ensures[ok] result0 == nil
